@@ -81,13 +81,38 @@ theorem proper_weights_kept (ws : List Int) (hs : sum ws = one) (hp : ∀ x ∈ 
   rw [(allNonneg_iff ws).mpr hp, hs]
   simp [tol]
 
-/-- … and `StatusMonitor` keeps whatever the loader produced (so both places agree and the
-weights used for reporting are the loaded ones). -/
-theorem monitor_keeps_loaded (ws : List Int) (hn : 1 ≤ ws.length) : monitorKeeps (normalize ws) = true := by
+/-- The re-check of `StatusMonitor.__init__` accepts whatever the loader produced … -/
+theorem monitor_recheck_accepts_loaded (ws : List Int) (hn : 1 ≤ ws.length) : monitorKeeps (normalize ws) = true := by
   have h := loaded_weights_proper ws hn
   unfold monitorKeeps proper
   rw [(allNonneg_iff _).mpr h.1]
   simp [h.2.1, h.2.2]
+
+/-- … and therefore the list `StatusMonitor` reports with is, position by position, the loaded
+list: `stageWeights = loaded weights` as lists (same length, `stageWeights[i]` = loaded weight of
+stage `i`), for every number of stages. -/
+theorem monitor_keeps_loaded (ws : List Int) (hn : 1 ≤ ws.length) :
+    monitorWeights (normalize ws) = some (normalize ws) := by
+  have h := monitor_recheck_accepts_loaded ws hn
+  unfold monitorKeeps at h
+  simp [monitorWeights, h]
+
+private theorem sum_perm {a b : List Int} (h : a.Perm b) : sum a = sum b := by
+  induction h with
+  | nil => rfl
+  | cons x _ ih => simp [sum, ih]
+  | swap x y l => simp only [sum]; omega
+  | trans _ _ ih1 ih2 => omega
+
+/-- Why the position-wise statement is needed: the re-check cannot see a misplaced weight —
+any rearrangement of a proper list is proper again (non-negative, same sum). -/
+theorem recheck_blind_to_order (a b : List Int) (h : a.Perm b) : proper a = proper b := by
+  have hs := sum_perm h
+  have hn : allNonneg a = allNonneg b := by
+    rw [Bool.eq_iff_iff, allNonneg_iff, allNonneg_iff]
+    exact ⟨fun f x hx => f x (h.mem_iff.mpr hx), fun f x hx => f x (h.mem_iff.mp hx)⟩
+  unfold proper
+  rw [hs, hn]
 
 /-- Negative weights are never kept, whatever the sum. -/
 theorem negative_never_kept (ws : List Int) (x : Int) (hx : x ∈ ws) (hneg : x < 0) :
@@ -157,11 +182,224 @@ theorem total_progress_in_unit_interval (scale : Int) (hs : 0 ≤ scale) (ws ps 
     apply List.map_snd_zip; omega
   rw [this]; omega
 
+/-! ### One status check against a changing controller -/
+
+private theorem wsumFrom_mono (f g : Nat → Int) (ws : List Int) (hw : ∀ w ∈ ws, 0 ≤ w)
+    (hfg : ∀ k, f k ≤ g k) (k : Nat) : wsumFrom f k ws ≤ wsumFrom g k ws := by
+  induction ws generalizing k with
+  | nil => simp [wsumFrom]
+  | cons w r ih =>
+    have hr := ih (fun x hx => hw x (List.mem_cons_of_mem _ hx)) (k + 1)
+    have h0 : 0 ≤ w := hw w List.mem_cons_self
+    have := Int.mul_le_mul_of_nonneg_right (hfg k) h0
+    simp only [wsumFrom]; omega
+
+private theorem wsumFrom_const (c : Int) (ws : List Int) (k : Nat) :
+    wsumFrom (fun _ => c) k ws = c * sum ws := by
+  induction ws generalizing k with
+  | nil => simp [wsumFrom, sum]
+  | cons w r ih => simp only [wsumFrom, sum, ih, Int.mul_add]
+
+private theorem wsumFrom_zero (f : Nat → Int) (ws : List Int) (k : Nat) (h : ∀ j, k ≤ j → f j = 0) :
+    wsumFrom f k ws = 0 := by
+  induction ws generalizing k with
+  | nil => simp [wsumFrom]
+  | cons w r ih =>
+    simp only [wsumFrom, h k (Nat.le_refl k), ih (k + 1) (fun j hj => h j (by omega))]
+    simp
+
+private theorem wsumFrom_readOf (pre ps ws : List Int) :
+    wsumFrom (readOf (pre ++ ps)) pre.length ws = progress (ps.zip ws) := by
+  induction ws generalizing pre ps with
+  | nil => simp [wsumFrom, progress]
+  | cons w r ih =>
+    cases ps with
+    | nil =>
+      simp only [List.zip_nil_left, progress]
+      apply wsumFrom_zero
+      intro j hj
+      simp only [readOf, List.append_nil, List.getD_eq_getElem?_getD, List.getElem?_eq_none hj]
+      rfl
+    | cons p q =>
+      simp only [List.zip_cons_cons, progress, wsumFrom]
+      have h := ih (pre ++ [p]) q
+      simp only [List.length_append, List.length_singleton, List.append_assoc, List.singleton_append] at h
+      rw [h]
+      simp [readOf]
+
+/-- `Σ_k ps[k]·ws[k]` written with `wsum` is the `progress` of the zipped lists. -/
+theorem wsum_readOf_eq_progress (ps ws : List Int) : wsum (readOf ps) ws = progress (ps.zip ws) := by
+  have := wsumFrom_readOf [] ps ws
+  simpa [wsum] using this
+
+private theorem count_le_one_of_nodup {l : List Nat} (h : l.Nodup) (k : Nat) : l.count k ≤ 1 :=
+  List.nodup_iff_count.mp h k
+
+/-- what the lock gives, pointwise: a stage is weighted with at most `scale` … -/
+private theorem stageFactor_bounds (scale : Int) (cur : Nat) (transit finished : List Nat) (p : Nat → Int)
+    (hd : ∀ k, k ∈ transit → k ∉ finished) (hnd : finished.Nodup)
+    (hp : ∀ k, 0 ≤ p k ∧ p k ≤ scale) (k : Nat) :
+    0 ≤ stageFactor scale cur transit finished p k ∧ stageFactor scale cur transit finished p k ≤ scale := by
+  have hs : 0 ≤ scale := Int.le_trans (hp 0).1 (hp 0).2
+  have hc : (finished.filter (fun i => i != cur)).count k ≤ 1 :=
+    count_le_one_of_nodup (hnd.filter _) k
+  unfold stageFactor
+  by_cases hk : k = cur ∨ k ∈ transit
+  · have hz : (finished.filter (fun i => i != cur)).count k = 0 := by
+      apply List.count_eq_zero.mpr
+      intro hm
+      have hm' := List.mem_filter.mp hm
+      rcases hk with h | h
+      · subst h; simp at hm'
+      · exact hd k h hm'.1
+    simp only [hk, if_true, hz]
+    have := hp k
+    omega
+  · simp only [hk, if_false]
+    have : (((finished.filter (fun i => i != cur)).count k : Nat) : Int) * scale ≤ 1 * scale :=
+      Int.mul_le_mul_of_nonneg_right (by omega) hs
+    have h0 : 0 ≤ (((finished.filter (fun i => i != cur)).count k : Nat) : Int) * scale :=
+      Int.mul_nonneg (by omega) hs
+    omega
+
+/-- **The bound needs the partition.**  If the in-transit list and the finished list of one
+check are disjoint and the finished list has no repetition (which is what reading both inside
+one `comp_lock` critical section provides: a stage either still has an active component or it
+has none), then for progress values in `[0, scale]` and non-negative weights
+`0 ≤ total ≤ scale · Σ w` — whatever the instants at which the individual progress values
+were read.  (`Witness.C20.double_count_without_disjointness`: without the hypothesis the bound fails.) -/
+theorem progress_of_partition_le_one (scale : Int) (cur : Nat) (transit finished : List Nat) (p : Nat → Int)
+    (ws : List Int) (hd : ∀ k, k ∈ transit → k ∉ finished) (hnd : finished.Nodup)
+    (hp : ∀ k, 0 ≤ p k ∧ p k ≤ scale) (hw : ∀ w ∈ ws, 0 ≤ w) :
+    0 ≤ checkTotal scale cur transit finished p ws ∧
+      checkTotal scale cur transit finished p ws ≤ scale * sum ws := by
+  have hb := stageFactor_bounds scale cur transit finished p hd hnd hp
+  constructor
+  · have := wsumFrom_mono (fun _ => 0) (stageFactor scale cur transit finished p) ws hw (fun k => (hb k).1) 0
+    rw [wsumFrom_const] at this
+    simpa [checkTotal, wsum] using this
+  · have := wsumFrom_mono (stageFactor scale cur transit finished p) (fun _ => scale) ws hw (fun k => (hb k).2) 0
+    rw [wsumFrom_const] at this
+    simpa [checkTotal, wsum] using this
+
+/-- … in particular with the loaded weights: `0 ≤ total ≤ scale·(1 + 1e-6)`. -/
+theorem progress_of_partition_loaded (scale : Int) (cur : Nat) (transit finished : List Nat) (p : Nat → Int)
+    (ws : List Int) (hn : 1 ≤ ws.length) (hd : ∀ k, k ∈ transit → k ∉ finished) (hnd : finished.Nodup)
+    (hp : ∀ k, 0 ≤ p k ∧ p k ≤ scale) :
+    0 ≤ checkTotal scale cur transit finished p (normalize ws) ∧
+      checkTotal scale cur transit finished p (normalize ws) ≤ scale * (one + tol) := by
+  have hl := loaded_weights_proper ws hn
+  have hb := progress_of_partition_le_one scale cur transit finished p (normalize ws) hd hnd hp hl.1
+  refine ⟨hb.1, Int.le_trans hb.2 ?_⟩
+  exact Int.mul_le_mul_of_nonneg_left (by omega) (Int.le_trans (hp 0).1 (hp 0).2)
+
+/-- A check whose lists AND progress values come from one consistent controller state
+reports exactly `Σ_k prog k · w k` of that state. -/
+theorem atomic_check_reports_snapshot (scale : Int) (s : Snap) (hc : s.Consistent scale) (ws : List Int) :
+    checkTotal scale s.cur s.transit s.finished s.prog ws = wsum s.prog ws := by
+  have hpt : ∀ k, stageFactor scale s.cur s.transit s.finished s.prog k = s.prog k := by
+    intro k
+    unfold stageFactor
+    by_cases hk : k = s.cur ∨ k ∈ s.transit
+    · have hz : (s.finished.filter (fun i => i != s.cur)).count k = 0 := by
+        apply List.count_eq_zero.mpr
+        intro hm
+        have hm' := List.mem_filter.mp hm
+        rcases hk with h | h
+        · subst h; simp at hm'
+        · exact hc.disjoint k h hm'.1
+      simp [hk, hz]
+    · have hk1 : k ≠ s.cur := fun h => hk (Or.inl h)
+      have hk2 : k ∉ s.transit := fun h => hk (Or.inr h)
+      simp only [hk, if_false]
+      by_cases hf : k ∈ s.finished
+      · have hm : k ∈ s.finished.filter (fun i => i != s.cur) := by
+          apply List.mem_filter.mpr; simp [hf, hk1]
+        have h1 : (s.finished.filter (fun i => i != s.cur)).count k = 1 := by
+          have hle := count_le_one_of_nodup (hc.nodup.filter (fun i => i != s.cur)) k
+          have hpos := List.count_pos_iff.mpr hm
+          omega
+        rw [h1, hc.fin_complete k hf]; simp
+      · have hz : (s.finished.filter (fun i => i != s.cur)).count k = 0 := by
+          apply List.count_eq_zero.mpr
+          intro hm; exact hf (List.mem_filter.mp hm).1
+        rw [hz, hc.idle_zero k hk2 hf]; simp
+  unfold checkTotal wsum
+  have : stageFactor scale s.cur s.transit s.finished s.prog = s.prog := funext hpt
+  rw [this]
+
+/-- The check as it is coded reads the two lists at one instant (state `s`, inside the lock)
+and every progress value at some later instant: if each value read lies between the stage's
+progress in `s` and its progress in a later state `hi` (progress only grows, a finished stage
+stays complete), the reported total lies between the exact weighted progress of the state
+`s` and that of the later state. -/
+theorem check_between_snapshots (scale : Int) (s : Snap) (hc : s.Consistent scale)
+    (p hi : Nat → Int) (ws : List Int) (hw : ∀ w ∈ ws, 0 ≤ w)
+    (hlo : ∀ k, s.prog k ≤ p k) (hhi : ∀ k, p k ≤ hi k) (hscale : ∀ k, hi k ≤ scale) :
+    wsum s.prog ws ≤ checkTotal scale s.cur s.transit s.finished p ws ∧
+      checkTotal scale s.cur s.transit s.finished p ws ≤ wsum hi ws := by
+  have hpt : ∀ k, s.prog k ≤ stageFactor scale s.cur s.transit s.finished p k ∧
+      stageFactor scale s.cur s.transit s.finished p k ≤ hi k := by
+    intro k
+    unfold stageFactor
+    by_cases hk : k = s.cur ∨ k ∈ s.transit
+    · have hz : (s.finished.filter (fun i => i != s.cur)).count k = 0 := by
+        apply List.count_eq_zero.mpr
+        intro hm
+        have hm' := List.mem_filter.mp hm
+        rcases hk with h | h
+        · subst h; simp at hm'
+        · exact hc.disjoint k h hm'.1
+      simp only [hk, if_true, hz]
+      have := hlo k; have := hhi k; omega
+    · have hk1 : k ≠ s.cur := fun h => hk (Or.inl h)
+      have hk2 : k ∉ s.transit := fun h => hk (Or.inr h)
+      simp only [hk, if_false]
+      by_cases hf : k ∈ s.finished
+      · have hm : k ∈ s.finished.filter (fun i => i != s.cur) := by
+          apply List.mem_filter.mpr; simp [hf, hk1]
+        have h1 : (s.finished.filter (fun i => i != s.cur)).count k = 1 := by
+          have hle := count_le_one_of_nodup (hc.nodup.filter (fun i => i != s.cur)) k
+          have hpos := List.count_pos_iff.mpr hm
+          omega
+        rw [h1]
+        have e := hc.fin_complete k hf
+        have := hlo k; have := hhi k; have := hscale k
+        omega
+      · have hz : (s.finished.filter (fun i => i != s.cur)).count k = 0 := by
+          apply List.count_eq_zero.mpr
+          intro hm; exact hf (List.mem_filter.mp hm).1
+        rw [hz]
+        have e := hc.idle_zero k hk2 hf
+        have := hlo k; have := hhi k
+        omega
+  constructor
+  · exact wsumFrom_mono _ _ ws hw (fun k => (hpt k).1) 0
+  · exact wsumFrom_mono _ _ ws hw (fun k => (hpt k).2) 0
+
+/-- Once every stage has completed (every stage finished, or current/in transit with full
+progress) an atomic check reports `scale · Σ w`, i.e. one for exact weights. -/
+theorem complete_snapshot_reports_one (scale : Int) (s : Snap) (hc : s.Consistent scale) (ws : List Int)
+    (hall : ∀ k, s.prog k = scale) :
+    checkTotal scale s.cur s.transit s.finished s.prog ws = scale * sum ws := by
+  rw [atomic_check_reports_snapshot scale s hc ws]
+  have : s.prog = fun _ => scale := funext hall
+  rw [this]
+  exact wsumFrom_const scale ws 0
+
 -- non-vacuity: hypotheses are met by concrete non-trivial inputs
 example : normalize [333300000, 333300000, 333400000] = [333300000, 333300000, 333400000] := by decide
 example : normalize [500400000, 500400000] = fallback 2 := by decide
 example : normalize [-500000000, 1500000000] = [500 * milli, 500 * milli] := by decide
 example : fallback 3 = [333 * milli, 333 * milli, 334 * milli] := by decide
 example : progress ([500, 1000].zip (normalize [250000000, 750000000])) = 875 * one := by decide
+
+example : monitorWeights (normalize [100000000, 800000000, 100000000]) = some [100000000, 800000000, 100000000] := by decide
+-- a consistent controller state: stage 0 finished, stage 1 in transit and current at 40%, stage 2 unknown
+example : Snap.Consistent ⟨1, [1], [0], readOf [1000, 400, 0]⟩ 1000 :=
+  ⟨by decide, by decide, by intro k; match k with | 0 | 1 | 2 => decide | k + 3 => simp [readOf],
+   by intro k hk; simp at hk; subst hk; decide,
+   by intro k h1 h2; match k with | 0 => simp at h2 | 1 => simp at h1 | k + 2 => cases k <;> simp [readOf]⟩
+example : checkTotal 1000 1 [1] [0] (readOf [1000, 400, 0]) [100000000, 800000000, 100000000] = 420 * one := by decide
 
 end St4sd.C20
